@@ -192,51 +192,98 @@ func c03FixedLen(c *Ctx) {
 		if f.Name() != "Verify" || f.Signature.Recv() == nil {
 			continue
 		}
-		allInstrs(f, func(ins ssa.Instruction) {
-			call, ok := ins.(*ssa.Call)
-			if !ok {
+		// decode calls made by Verify itself or by module helpers it calls (depth 3); fromKey
+		// tells whether a value of the function at hand derives from the verifier's key
+		var walk func(g *ssa.Function, fromKey func(ssa.Value) bool, depth int, seen map[*ssa.Function]bool)
+		walk = func(g *ssa.Function, fromKey func(ssa.Value) bool, depth int, seen map[*ssa.Function]bool) {
+			if seen[g] || depth > 3 {
 				return
 			}
-			callee := call.Call.StaticCallee()
-			if callee == nil || core.Rel(core.PkgOf(callee)) != "internal/signature/ecdsa" || !strings.Contains(callee.Name(), "IEEEP1363Decode") {
-				return
-			}
-			n++
-			key := fmt.Sprintf("C03.fixedlen/%s/%s", core.FuncID(f), callee.Name())
-			// the callee must compare len(param0) for equality with ieeeSignatureSize(param) of a curve argument
-			pins := false
-			allInstrs(callee, func(i2 ssa.Instruction) {
-				iff, isIf := i2.(*ssa.If)
-				if !isIf {
+			seen[g] = true
+			allInstrs(g, func(ins ssa.Instruction) {
+				call, ok := ins.(*ssa.Call)
+				if !ok {
 					return
 				}
-				cmp, isCmp := iff.Cond.(*ssa.BinOp)
-				if !isCmp || (cmp.Op != token.NEQ && cmp.Op != token.EQL) {
+				callee := call.Call.StaticCallee()
+				if callee == nil || callee.Blocks == nil {
 					return
 				}
-				for _, pr := range [][2]ssa.Value{{cmp.X, cmp.Y}, {cmp.Y, cmp.X}} {
-					lc, _ := guard.CallOf(pr[0])
-					sc, si := guard.CallOf(pr[1])
-					if lc == nil || sc == nil || si != 0 {
-						continue
+				if core.Rel(core.PkgOf(callee)) != "internal/signature/ecdsa" || !strings.Contains(callee.Name(), "IEEEP1363Decode") {
+					if strings.HasPrefix(core.PkgOf(callee), core.ModPath) && len(callee.Params) > 0 && core.IsByteSlice(callee.Params[0].Type()) {
+						// a helper handed the signature bytes
+						args := call.Call.Args
+						walk(callee, func(v ssa.Value) bool {
+							for i, prm := range callee.Params {
+								if i < len(args) && derivesFrom(v, prm, 0) && fromKey(args[i]) {
+									return true
+								}
+							}
+							return false
+						}, depth+1, seen)
 					}
-					if b, isB := lc.Call.Value.(*ssa.Builtin); isB && b.Name() == "len" && lc.Call.Args[0] == ssa.Value(callee.Params[0]) && sc.Call.StaticCallee() == tbl {
-						if _, isP := sc.Call.Args[0].(*ssa.Parameter); isP {
-							pins = true
+					return
+				}
+				n++
+				key := fmt.Sprintf("C03.fixedlen/%s/%s", core.FuncID(f), callee.Name())
+				if g != f {
+					key += " via " + g.Name()
+				}
+				// the callee must compare len(param0) for equality with ieeeSignatureSize(param) of a curve argument
+				pins := false
+				allInstrs(callee, func(i2 ssa.Instruction) {
+					iff, isIf := i2.(*ssa.If)
+					if !isIf {
+						return
+					}
+					cmp, isCmp := iff.Cond.(*ssa.BinOp)
+					if !isCmp || (cmp.Op != token.NEQ && cmp.Op != token.EQL) {
+						return
+					}
+					for _, pr := range [][2]ssa.Value{{cmp.X, cmp.Y}, {cmp.Y, cmp.X}} {
+						lc, _ := guard.CallOf(pr[0])
+						sc, si := guard.CallOf(pr[1])
+						if lc == nil || sc == nil || si != 0 {
+							continue
+						}
+						if b, isB := lc.Call.Value.(*ssa.Builtin); isB && b.Name() == "len" && lc.Call.Args[0] == ssa.Value(callee.Params[0]) && sc.Call.StaticCallee() == tbl {
+							if _, isP := sc.Call.Args[0].(*ssa.Parameter); isP {
+								pins = true
+							}
+						}
+					}
+				})
+				// and the curve argument at the call site derives from the receiver
+				fromRecv := false
+				for _, arg := range call.Call.Args[1:] {
+					if fromKey(arg) {
+						fromRecv = true
+					}
+				}
+				if !pins {
+					// or the caller itself pins the length before decoding: len(sig) == size, the
+					// size deriving from the key
+					for _, fct := range guard.InstrFacts(ins) {
+						op, x, y, isC := guard.Cmp(fct)
+						if !isC || op != token.EQL {
+							continue
+						}
+						for _, pr := range [][2]ssa.Value{{x, y}, {y, x}} {
+							lc, _ := guard.CallOf(pr[0])
+							if lc == nil {
+								continue
+							}
+							if b, isB := lc.Call.Value.(*ssa.Builtin); isB && b.Name() == "len" && guard.Strip(lc.Call.Args[0]) == guard.Strip(call.Call.Args[0]) && fromKey(pr[1]) {
+								pins, fromRecv = true, true
+							}
 						}
 					}
 				}
+				r.Check(pins && fromRecv, "C03.fixedlen", key, p.Pos(ins.Pos()), "an IEEE-P1363 signature is decoded without pinning its length to the size of this key's curve (a signature padded to another curve's size would be accepted)",
+					"decoder compares len(sig) with ieeeSignatureSize(curve); curve argument derives from the verifier's key")
 			})
-			// and the curve argument at the call site derives from the receiver
-			fromRecv := false
-			for _, arg := range call.Call.Args[1:] {
-				if derivesFrom(arg, f.Params[0], 0) {
-					fromRecv = true
-				}
-			}
-			r.Check(pins && fromRecv, "C03.fixedlen", key, p.Pos(ins.Pos()), "an IEEE-P1363 signature is decoded without pinning its length to the size of this key's curve (a signature padded to another curve's size would be accepted)",
-				"decoder compares len(sig) with ieeeSignatureSize(curve); curve argument derives from the verifier's key")
-		})
+		}
+		walk(f, func(v ssa.Value) bool { return derivesFrom(v, f.Params[0], 0) }, 0, map[*ssa.Function]bool{})
 	}
 	if n == 0 {
 		r.AnchorMissing("C03.fixedlen", "IEEE-P1363 decode call in an ECDSA verifier")
